@@ -9,7 +9,11 @@ CASE_WALL_S = 60
 
 ID = "C16"
 TIERS = {"quick": dict(examples=1000), "thorough": dict(examples=25000)}
-RULE = ("Two real dilated wormholes on the simulated clock with ping_interval P drawn from [0.05,120] s. The "
+RULE = ("Two real dilated wormholes on the simulated clock with ping_interval P drawn from [0.05,120] s. Optionally "
+        "the Leader sends bulk data (1-5 writes placed just before monitor expiries) over a Leader->Follower "
+        "direction with per-burst delay and a 200-byte transport buffer, so its Outbound is paused across expiries "
+        "(total round trip stays under 0.9P); optionally the link is lost at a generated instant in the first 5 "
+        "intervals (also between a ping and its pong) and the replacement must be monitored and kept. The "
         "Follower->Leader direction of the link in use is: responsive with a generated per-burst delay d in "
         "[0,0.9P]; or silent from a generated instant (bytes black-holed, link stays up) chosen anywhere inside "
         "the first 6 intervals; optionally the link is killed and replaced before the behaviour starts; after a "
@@ -36,6 +40,14 @@ def cases(draw, tier="quick"):
     c["delay"] = draw(st.floats(0.0, 0.9))               # fraction of P
     c["prekill"] = draw(st.sampled_from([False, False, True]))
     c["second_round"] = draw(st.booleans())
+    # the link in use is lost (by the network) at a generated instant, also between a ping and its pong
+    c["kill_at"] = draw(st.one_of(st.none(), st.floats(0.0, 5.0))) if c["mode"] != "silent" else None
+    # bulk data from the Leader over a slow Leader->Follower direction with a small transport buffer: the
+    # Leader's Outbound is paused (back-pressure) while a burst is in flight, also across timer expiries
+    if draw(st.booleans()):
+        c["l2f_delay"] = draw(st.floats(0.0, 0.9 - c["delay"] if c["mode"] == "slow" else 0.9))
+        c["bulk"] = [[draw(st.integers(1, 6)), draw(st.floats(0.0, 1.0)), draw(st.sampled_from([100, 300, 5000, 70000]))]
+                     for _ in range(draw(st.integers(1, 5)))]
     return c
 
 
@@ -67,6 +79,17 @@ class Monitor:
             return ohp(pid)
         L.handle_pong = hp
         self.wrap_connection()
+        tt = getattr(L, "_traffic", None)
+        self.paused_at_expiry = 0
+        if tt is not None:
+            def tr(old_state, input, new_state, tt=tt):
+                tt._verif_state = new_state
+                if input == "interval_elapsed" and getattr(L._outbound, "_paused", False):
+                    self.paused_at_expiry += 1
+            try:
+                tt.set_trace(tr)
+            except Exception:
+                pass
 
     def wrap_connection(self):
         lp = self.L._connection
@@ -138,11 +161,15 @@ def drive(case, until, hold=None, stop_when=None, on_step=None, rtt=None):
     return "time"
 
 
+def case_traffic_state(L):
+    return getattr(getattr(L, "_traffic", None), "_verif_state", None) or "connected?"
+
+
 def run_case(c):
     from wormhole._dilation.roles import LEADER
     res = CaseResult()
     P = float(c["P"])
-    case = dilworld.DilCase(dict(ping_interval=[P, P], tape=b"", ops=[], kills=0))
+    case = dilworld.DilCase(dict(ping_interval=[P, P], tape=b"", ops=[], kills=0, bufsize=200 if c.get("bulk") else 1 << 16))
     case.setup()
     W = case.W
     try:
@@ -179,41 +206,122 @@ def run_case(c):
                 return res
             reconnects += 1
             mon.wrap_connection()
+        bulk = c.get("bulk") or []
+        sub_end = [None]
+        if bulk:
+            case._do_intent(["listen", 1 - li, "p"])
+            case._do_intent(["open", li, "p"])
+            drive(case, W.clock.seconds() + min(P * 0.1, 0.5), stop_when=lambda: case.opens[0][2] is not None and
+                  case.opens[0][2].transport is not None)
+            if case.opens[0][2] is None:
+                res.inconclusive = True
+                res.features = dict(setup="subchannel-not-open")
+                return res
+            sub_end[0] = case.opens[0][2]
         t_conn = W.clock.seconds()
         n_disc0 = len(mon.discs)
         ft = [F._connection.transport]          # the Follower's transport: its outq carries pongs to the Leader
+        lt = [L._connection.transport]
         mode = c["mode"]
         t_silence = t_conn + c["silence_at"] * P if mode == "silent" else None
         release = {}
+        d_l2f = float(c.get("l2f_delay") or 0.0) if bulk else 0.0
+        paused_at_expiry = [0]
+
+        def burst_hold(t, delay):
+            now = W.clock.seconds()
+            if id(t) not in release or release[id(t)][1] != t.sent_total:
+                # new bytes were queued: hold the whole burst for `delay`; bytes queued while a burst is
+                # still waiting travel with it
+                if id(t) not in release or release[id(t)][0] <= now:
+                    release[id(t)] = (now + delay, t.sent_total)
+                else:
+                    release[id(t)] = (release[id(t)][0], t.sent_total)
+            return release[id(t)][0]
 
         def hold(t):
+            now = W.clock.seconds()
+            if t is lt[0] and d_l2f > 0:
+                return burst_hold(t, d_l2f * P)
             if t is not ft[0]:
                 return None
-            now = W.clock.seconds()
             if mode == "silent" and now >= t_silence:
                 return float("inf")
             if mode == "slow":
-                if id(t) not in release or release[id(t)][1] != t.sent_total:
-                    # new bytes were queued: hold the whole burst for `delay`
-                    if id(t) not in release or release[id(t)][0] <= now:
-                        release[id(t)] = (now + c["delay"] * P, t.sent_total)
-                return release[id(t)][0]
+                return burst_hold(t, c["delay"] * P)
             return None
-        horizon = t_conn + 12 * P
-        wake_at_silence = [t_silence] if t_silence else []
+        horizon = [t_conn + 12 * P]
 
         def hold2(t):
             r = hold(t)
             if r == float("inf"):
-                return None if False else 10 ** 12
+                return 10 ** 12
             return r
 
         def stop_when():
             return len(mon.discs) > n_disc0
-        # make the clock stop at the silence instant too
-        if t_silence is not None and t_silence > W.clock.seconds():
-            drive(case, t_silence, hold=hold2, stop_when=stop_when)
-        drive(case, horizon, hold=hold2, stop_when=stop_when)
+        # timed actions: the silence instant, bulk writes placed relative to the monitor's timer expiries,
+        # and the loss of the link
+        actions = []
+        if t_silence is not None:
+            actions.append((t_silence, ("noop",)))
+        base = L._timer.getTime() if getattr(L, "_timer", None) is not None else t_conn + P
+        for (k, off, size) in bulk:
+            actions.append((max(t_conn, base + (k - 1) * P - off * max(d_l2f, 0.05) * P), ("write", size)))
+        if c.get("kill_at") is not None and mode != "silent":
+            actions.append((t_conn + c["kill_at"] * P, ("kill",)))
+        actions.sort(key=lambda x: x[0])
+        midkill = None
+        killed_in_state = None
+        for (t_act, act) in actions:
+            if t_act > horizon[0] or stop_when():
+                break
+            if t_act > W.clock.seconds():
+                drive(case, t_act, hold=hold2, stop_when=stop_when)
+            if stop_when():
+                break
+            if act[0] == "write" and sub_end[0] is not None and "lost" not in sub_end[0].kinds():
+                e = sub_end[0]
+                data = (b"%d:" % len(e.writes)) + b"x" * act[1]
+                e.transport.write(data)
+                e.writes.append(data)
+            elif act[0] == "kill":
+                links = [l for l in case.selected_links() if not l.a.broken]
+                if not links or L._connection is None:
+                    continue
+                killed_in_state = case_traffic_state(L)
+                old = L._connection
+                for l in links:
+                    l.break_()
+                t0 = W.clock.seconds()
+
+                def reconnected(old=old):
+                    return all(m._connection is not None and not m._connection.transport.lost and
+                               not m._connection.transport.broken and m._connection is not old for m in ms)
+                drive(case, t0 + max(3.0, 0.5 * P), hold=hold2, stop_when=reconnected)
+                if not reconnected():
+                    midkill = "not-reconnected"
+                    res.violate("resume", "the link was lost %.3g intervals after connecting (monitor state %s) and the "
+                                "sides never got a new connection (Manager states %r, logged %r)" % (
+                                    c["kill_at"], killed_in_state, [case.state_name(m) for m in ms],
+                                    W.error_summaries()[:2]), input_class="no-new-generation-after-loss")
+                    break
+                midkill = "reconnected"
+                reconnects += 1
+                mon.wrap_connection()
+                ft[0], lt[0] = F._connection.transport, L._connection.transport
+                t1 = W.clock.seconds()
+                horizon[0] = max(horizon[0], t1 + 6 * P)
+                nsent_k = len(mon.sent_times)
+                drive(case, t1 + P * (1 + 1e-6), hold=hold2, stop_when=stop_when)
+                if not stop_when():
+                    later = [t for t in mon.sent_times[nsent_k:] if t - t1 <= P + 1e-9]
+                    if not later and not [a for a in mon.answered if a[0] >= t1 - 1e-9]:
+                        res.violate("resume", "no ping was sent within one interval of the connection that replaced the "
+                                    "lost one (monitor state at the loss %s)" % killed_in_state,
+                                    input_class="monitoring-not-resumed")
+        if midkill != "not-reconnected" and not stop_when():
+            drive(case, horizon[0], hold=hold2, stop_when=stop_when)
         dropped = len(mon.discs) > n_disc0
         answered_before = [a for a in mon.answered if a[0] >= t_conn - 1e-9]
         info = "P=%.4g mode=%s silence_at=%.3gP delay=%.3gP prekill=%s answered=%d" % (
@@ -278,10 +386,12 @@ def run_case(c):
                         exc=type(ex).__name__)
             break
         frac = (c["silence_at"] % 1.0)
-        res.nontrivial = (c["mode"] == "silent" and 0.05 < frac < 0.95) or reconnects > 0 or c["mode"] == "slow"
+        res.nontrivial = (c["mode"] == "silent" and 0.05 < frac < 0.95) or reconnects > 0 or c["mode"] == "slow" or \
+            mon.paused_at_expiry > 0
         res.features = dict(mode=c["mode"], P=common.bucket(int(P), [0, 1, 10, 60]), prekill=c["prekill"],
                             answered=common.bucket(len(answered_before), [0, 1, 3, 6]), dropped=dropped,
-                            phase2=str(phase2))
+                            phase2=str(phase2), paused_at_expiry=min(mon.paused_at_expiry, 2),
+                            midkill="%s/%s" % (midkill, killed_in_state))
         res.trace = "%s|%d|%d|%.2f" % (c["mode"], len(mon.sent_times), len(mon.answered), c["silence_at"])
         res.steps = W.steps
         res.sample = dict(case=c, pings_sent=len(mon.sent_times), answered=len(mon.answered),
